@@ -483,6 +483,27 @@ func c05Directed(s *C05Script, c *core.Ctx) bool {
 			}
 		}
 	}
+	// Two program map sections in one payload (an update sent right behind the table it
+	// replaces), the later one listing fewer streams, or other ones: the object the decoder
+	// returns answers every query by PID, also for the PIDs only the earlier section had.
+	for _, laterN := range []int{0, 1, 3, 30} {
+		later := ref.PMTSpec{Program: 1, Version: 3, CurrentNext: true, PCRPID: 0x100}
+		for i := 0; i < laterN; i++ {
+			later.Streams = append(later.Streams, ref.ES{Type: 0x0F, PID: 0x100 + 2*i})
+		}
+		both := tight(ref.Payload(0, [][]byte{sec, later.Section()}, 3))
+		var two psi.PMT
+		var terr error
+		if !d.ro("psi.NewPMT(two program map sections)", both, func() { two, terr = psi.NewPMT(both) }) {
+			return false
+		}
+		if terr == nil && two != nil {
+			c.Probe("pmt_with_two_program_map_sections_queried")
+			if !d.pmtGetters(two) {
+				return false
+			}
+		}
+	}
 	return true
 }
 
@@ -964,8 +985,17 @@ func (d *c05Run) pmtGetters(pm psi.PMT) bool {
 				_ = fmt.Sprintf("%v", ds)
 			}
 		}
+		// the queries by PID take any PID, not only those the table lists (a PID of an earlier,
+		// superseded section of the same payload for instance)
+		for pid := 0; pid < 0x2000; pid++ {
+			pm.IsPidForStreamWherePresentationLagsEbp(pid)
+			pm.PIDExists(pid)
+		}
 		pm.RemoveElementaryStreams([]int{0x100, 0x1234})
 		pm.Pids()
+		for pid := 0; pid < 0x2000; pid += 7 {
+			pm.IsPidForStreamWherePresentationLagsEbp(pid)
+		}
 	})
 }
 
